@@ -262,6 +262,13 @@ components:
         name: {type: string, pattern: '^[A-Za-z]+MARKf?$'}
         count: {type: integer}
         tags: {type: array, uniqueItems: true, minItems: 2, items: {type: string}}
+    Beast:
+      oneOf:
+        - $ref: '#/components/schemas/Cat'
+        - $ref: '#/components/schemas/Dog'
+      discriminator:
+        propertyName: species
+        mapping: {cat: Cat, dog: Dog}
     Odd:
       type: object
       properties:
